@@ -44,11 +44,13 @@ MustErr(kinds, locals) == (\E l \in locals : l = "err") \/ (\E k \in kinds : k \
 
 \* dev = 0: the contract.  dev = 1: the contract weakened by the listed deviation DevShortStream
 \* (known finding C10/ipc-cut-at-message-boundary): a payload cut at a message boundary / inside the
-\* following continuation marker is taken for a complete, shorter stream.
+\* following continuation marker is taken for a complete, shorter stream and merged: no error, and the
+\* answer lacks what the lost rows contribute ("short") - or happens not to depend on them ("full":
+\* DISTINCT, a filter above the gathered rows, a TopN the lost rows were not part of).
 Allowed(kinds, locals, dev) ==
   IF MustErr(kinds, locals)
   THEN {"err"} \cup (IF dev = 1 /\ (\A l \in locals : l # "err") /\ kinds \subseteq (Harmless \cup ShortCuts)
-                     THEN {"short"} ELSE {})
+                     THEN {"short", "full"} ELSE {})
   ELSE IF "trunc_eos" \in kinds THEN {"err", "full"} ELSE {"full"}
 
 \* Recorded executions know one more thing that can happen to a response: "flip", ONE byte of the
